@@ -289,8 +289,10 @@ def build_wn(wntr, spec):
     wn.options.hydraulic.required_pressure = o["required_pressure"]
     wn.options.hydraulic.minimum_pressure = o["minimum_pressure"]
     wn.options.hydraulic.pressure_exponent = o["pressure_exponent"]
-    if "trials" in o:
+    if o.get("trials") is not None:
         wn.options.hydraulic.trials = o["trials"]
+    if o.get("unbalanced") is not None:
+        wn.options.hydraulic.unbalanced = o["unbalanced"]
     for pn, mults in spec["patterns"].items():
         wn.add_pattern(pn, list(mults))
     for cn, pts in spec["curves"].items():
@@ -450,7 +452,7 @@ def spec_signature(spec):
 
 # ----------------------------------------------------------------------------- directed scenarios
 
-SCENARIOS = ["psv", "prv", "fcv", "tcv", "pump_shutoff", "cv_reverse", "power_pump", "pump_curves", "cv_htol", "pump_points", "tank_tank", "cutset"]
+SCENARIOS = ["psv", "prv", "fcv", "tcv", "pump_shutoff", "cv_reverse", "power_pump", "pump_curves", "cv_htol", "pump_points", "tank_tank", "cutset", "cv_cascade"]
 
 
 def _opts(rng, **kw):
@@ -588,6 +590,23 @@ def scenario_network(rng, name, variant=0):
             ctl += [{"link": "P3", "attr": "status", "value": "CLOSED", "time": hyd, "kind": "control"},
                     {"link": "P2b", "attr": "status", "value": "CLOSED", "time": 3 * hyd, "kind": "control"}]
         curves = {}
+    elif name == "cv_cascade":
+        # a chain of check-valve pipes fed from R0 towards R1 whose head pattern steps ABOVE R0's: the CVs close one after the other
+        # (each closing changes the heads that decide the next one), so the status iteration of that step needs several trials
+        pats["up"] = [1.0, 1.0, _r(rng, 1.15, 1.3, 2), _r(rng, 1.15, 1.3, 2), 1.0]
+        n_cv = rng.choice([2, 3, 3, 4])
+        opts = _opts(rng, demand_model="DD")
+        opts.update({"hydraulic_timestep": 3600, "pattern_timestep": 3600, "report_timestep": 3600, "pattern_start": 0, "duration": 4 * 3600})
+        nodes = [{"name": "R0", "type": "reservoir", "head": 60.0, "head_pattern": None},
+                 {"name": "R1", "type": "reservoir", "head": 55.0, "head_pattern": "up"}]
+        links, prev = [], "R0"
+        for i in range(n_cv):
+            nodes.append(_junc("J%d" % i, 5.0, _r(rng, 0.001, 0.004, 4)))
+            links.append(_pipe("CV%d" % i, prev, "J%d" % i, L=_r(rng, 100, 300, 0), d=0.2, cv=True))
+            if i > 0 and rng.random() < 0.5:   # a side feed from the high reservoir keeps the downstream junctions supplied
+                links.append(_pipe("S%d" % i, "J%d" % i, "R1", L=_r(rng, 200, 500, 0), d=0.15))
+            prev = "J%d" % i
+        links.append(_pipe("PL", prev, "R1", L=200.0, d=0.2))
     elif name == "cv_htol":
         # R0 -CV pipe-> J0 -pipe-> R1 with R1 within / just outside the head tolerance above R0: only the FLOW test can close the CV
         off = rng.choice([0.0001, 0.00005, 0.00014, 0.00016, 0.001, -0.0001, 0.00012])
